@@ -42,6 +42,9 @@ def floors(tier):
 
 def cases(tier, seed):
     yield {"canary": "optimized-set-index"}
+    # canary of the listed finding: a persisted frame whose partitions are views of the user's frame is renamed by a pickle round trip
+    yield {"prog": {"tables": [{"seed": 5, "n": 24, "index": "range", "ridbase": 0, "cols": ["i", "g", "rid"]}], "sources": [{"table": 0, "layout": {"kind": "from_pandas", "npartitions": 3, "sort": True}}],
+                    "steps": [{"op": "persist", "in": [0], "p": {}}], "out": 1}, "forms": ["logical"], "shuffle": "tasks"}
     # planner state computed by sampling (quantile divisions): large enough partitions that dask really samples
     for i, (col, np_, kind) in enumerate([("g", 4, "set_index"), ("k", 3, "set_index"), ("f2", 5, "sort_values"), ("g", 6, "sort_values")]):
         yield {"big": [col, np_, kind, i], "forms": FORMS}
